@@ -96,7 +96,7 @@ _gid = st.sampled_from(GIDS)
 @st.composite
 def _op(draw, tag):
     k = draw(st.sampled_from(["import", "import", "import_bad", "import_direct", "add_node", "add_node", "add_node",
-                              "clone", "delete", "delete_imp", "extract", "delete_all"]))
+                              "clone", "delete", "delete_imp", "extract", "delete_all", "new_importer"]))
     if k == "import_direct":
         return [k, draw(_gid), draw(st.integers(0, 2))]
     if k == "import":
@@ -128,7 +128,8 @@ def _case(draw):
         threads.append([o for o in ops if o[0] != "delete_all"] or [["extract", "g0"]])
     pre = draw(st.lists(st.tuples(st.integers(1, 160), st.integers(0, nth - 1)).map(list), min_size=1, max_size=6,
                         unique_by=lambda p: p[0]))
-    return {"kind": "conc", "fl": fl, "threads": threads, "preempt": sorted(pre)}
+    # (one case in four starts from an EMPTY store instead of the two pre-imported graphs)
+    return {"kind": "conc", "fl": fl, "threads": threads, "preempt": sorted(pre), "empty": draw(st.integers(0, 3)) == 0}
 
 
 def strategy(tier):
@@ -165,6 +166,9 @@ def _do(imp, op):
         imp.storage.extract_graph(op[1])
     elif k == "delete_all":
         imp.delete_all_graphs()
+    elif k == "new_importer":
+        # another importer object is constructed (every topology object does that); it must join the one store
+        store.make_importer("shared" if type(imp).__name__ == "NetworkXGraphImporter" else "disjoint")
     else:
         raise AssertionError(k)
 
@@ -291,7 +295,7 @@ def _freeze(M, regs):
             tuple(sorted((t, None if r is None else fg(r)) for t, r in regs.items())))
 
 
-def serial_outcomes(threads, fl):
+def serial_outcomes(threads, fl, empty=False):
     """canonical final states of every serial order of the store-level steps that respects per-thread order
     (breadth-first over (positions, model state) with duplicate states merged)"""
     import copy
@@ -317,7 +321,8 @@ def serial_outcomes(threads, fl):
             _model_do(M, st_, fl)
 
     M0 = RefStore()
-    _init_model(M0)
+    if not empty:
+        _init_model(M0)
     frontier = {(tuple([0] * n), _freeze(M0, {})): (M0, {})}
     outs, seen_final = [], set()
     total = sum(len(x) for x in steps)
@@ -360,8 +365,9 @@ def run_conc(case, want_steps=False):
     fl = case["fl"]
     S = sched.Scheduler(len(case["threads"]), case.get("preempt") or [])
     imp, lock = _prepare(fl, None)
-    _do(imp, ["import", "g0", 0])
-    _do(imp, ["import", "g1", 1])
+    if not case.get("empty"):
+        _do(imp, ["import", "g0", 0])
+        _do(imp, ["import", "g1", 1])
     lock.sched = S
     raised = [[] for _ in case["threads"]]
 
@@ -393,7 +399,7 @@ def run_conc(case, want_steps=False):
         if lock.locked():
             v.append((f"{sig}/lock-held-after-join", ctx))
         final = json.dumps({g: _struct(store.canon(imp, g)) for g in GIDS}, sort_keys=True)
-        outs = serial_outcomes(case["threads"], fl)
+        outs = serial_outcomes(case["threads"], fl, bool(case.get("empty")))
         if final not in outs:
             got = json.loads(final)
             v.append((f"{sig}/not-serializable",
@@ -405,11 +411,26 @@ def run_conc(case, want_steps=False):
             v.append((f"{sig}/id-counter", f"{msg} | {ctx}"))
         # every add_node tags its node with a property naming that node: a tag found on ANOTHER node means the
         # internal identifier add_node wrote through was (also) somebody else's - handed out twice
+        # (not judged for graphs that some thread replaces or deletes as a whole during the run: add_node is two store
+        # steps - create the node, then write its properties through the internal id - and a graph replaced in between
+        # legitimately re-issues its ids; that is the same non-atomicity as clone's, not a double hand-out)
+        replaced = set()
+        for ops in case["threads"]:
+            for o in ops:
+                if o[0] in ("import", "import_direct", "import_bad", "delete", "delete_imp"):
+                    replaced.add(o[1])
+                elif o[0] == "clone":
+                    replaced.add(o[2])
+                elif o[0] == "delete_all":
+                    replaced |= set(GIDS)
         for g in GIDS:
             c = store.canon(imp, g)
             for nid, d in (c["nodes"] if c else {}).items():
                 tag = d["props"].get("p")
                 if tag is not None and tag[0] == "str" and tag[1].startswith("of-") and tag[1] != "of-" + nid:
+                    writer_graph = tag[1].split("-")[2] if tag[1].count("-") >= 3 else None
+                    if g in replaced or writer_graph in replaced:
+                        continue
                     v.append((f"{sig}/properties-written-to-another-node",
                               f"node {nid!r} of {g} carries the properties of {tag[1][3:]!r} | {ctx}"))
                     break
